@@ -183,6 +183,17 @@ def rule_raw_read(ctx, facts):
     return r
 
 
+def flow_sub(t, out=None):
+    out = [] if out is None else out
+    if isinstance(t, tuple):
+        if t and isinstance(t[0], str):
+            out.append(t)
+        for x in t:
+            if isinstance(x, tuple):
+                flow_sub(x, out)
+    return out
+
+
 def rule_adapters(facts):
     r = report.RuleResult("C13.R3", "counting / digesting adapters account exactly what went through")
     found = 0
@@ -222,6 +233,54 @@ def rule_adapters(facts):
             else:
                 r.bad("%s|consume" % fn, "consume does not forward and count exactly the requested amount", pat.where(b))
     r.need("fill_buf and consume of the counting adapter", found >= 2)
+    # digesting adapters: every byte handed out is digested exactly once - the digest is updated with buf[..n] for the
+    # count n of the one inner read, once, and n is what the adapter returns
+    nd = 0
+    for b in facts.bodies:
+        if b.promoted is not None or b.trait not in ("std::io::Read", "std::io::Write") or not b.file.startswith("src/") or b.item not in ("read", "write"):
+            continue
+        ups = [x for x in b.calls() if (flow.callee(x.term) or "").endswith("::update") and "crc" in (flow.callee(x.term) or "")]
+        if not ups:
+            continue
+        nd += 1
+        r.sites += 1
+        fn = short(b.name)
+        tm = Terms(b)
+        c = cfg(b)
+        inner = [x for x in b.calls() if (flow.declared(x.term) or "").endswith(("Read::read", "Write::write")) and
+                 pat.has_field(tm.of_operand(x.term.args[0]), "read" if b.item == "read" else "write")]
+        okk = len(ups) == 1 and len(inner) == 1 and not c.loop_blocks_of(ups[0].idx) and not c.loop_blocks_of(inner[0].idx)
+        why = "the digest is updated %d time(s) for %d inner call(s)%s" % (len(ups), len(inner), ", inside a loop" if ups and c.loop_blocks_of(ups[0].idx) else "")
+        if okk:
+            t = tm.of_operand(ups[0].term.args[1])
+            idx = [q for q in flow_sub(t) if q[0] == "call" and q[1].endswith(("::index", "Index::index"))]
+            cnt = ("ok", ("call",)) if False else None
+            good = False
+            if idx:
+                rng = idx[0][2][1]
+                base = idx[0][2][0]
+                if rng[0] == "agg" and rng[1].endswith("RangeTo::RangeTo") and pat.has_arg(base, "buf"):
+                    end = pat.strip(rng[2][0])
+                    if end and end[0] == "call" and len(end) > 3 and end[3] == inner[0].idx:
+                        good = True
+            if not good:
+                okk = False
+                why = "the digest is not updated with exactly buf[..n] of the inner call's count: %s" % flow.show(t)[:80]
+            # returned count
+            rets = []
+            for blk in b.blocks:
+                for s_ in blk.stmts:
+                    if s_.k == "assign" and s_.place.local == 0 and not s_.place.proj and s_.rv.k == "aggregate" and s_.rv.agg == "adt" and s_.rv.variant == 0:
+                        rets.append(pat.strip(tm.of_operand(s_.rv.ops[0])))
+            if okk and not all(x and x[0] == "call" and len(x) > 3 and x[3] == inner[0].idx for x in rets):
+                okk = False
+                why = "the adapter does not return the inner call's count"
+        if okk:
+            r.ok("effect", {"fn": fn, "digest": "update(&buf[..n]) once per inner call, returns n"})
+        else:
+            r.bad("%s|digest" % fn, "a digesting adapter does not digest exactly the bytes it hands on: %s - with a reader that returns "
+                  "short counts bytes are digested twice or not at all" % why, pat.where(b))
+    r.need("digesting adapters (found %d)" % nd, nd >= 1)
     # the Read halves are checked by the same rule as C12.R2
     from rules import C12
     r2 = C12.rule_r2(facts)
